@@ -8,13 +8,14 @@ import numpy as np
 
 
 class Ref:
-    __slots__ = ("id", "t", "shape", "rg", "lo", "hi", "kind", "finite")
+    __slots__ = ("id", "t", "shape", "rg", "lo", "hi", "kind", "finite", "size")
 
     def __init__(self, id, t):
         self.id = id
         self.t = t
         d = t.data
         self.shape = tuple(d.shape)
+        self.size = int(d.size)
         self.rg = bool(t.requires_grad)
         self.kind = d.dtype.kind
         if d.size and d.dtype.kind == "f":
@@ -57,8 +58,14 @@ def _bcompat(a, b):
     return True
 
 
+MAX_ELEMS = 200_000        # results larger than this are never used as operands again (programs must not grow without bound)
+HEAVY_MAX = 4096           # operand size limit for the ops whose cost is super-linear in it
+HEAVY = {"matmul", "matmul_T", "addmm", "linear", "softmax", "log_softmax", "conv1d", "conv2d", "unfold", "unfold_dim", "max_pool1d", "avg_pool1d",
+         "max_pool2d", "avg_pool2d", "batch_norm", "stack", "concat", "cross_entropy", "nll_loss"}
+
+
 def _floats(pool):
-    return [r for r in pool if r.kind == "f" and r.finite]
+    return [r for r in pool if r.kind == "f" and r.finite and r.size <= MAX_ELEMS]
 
 
 def _pick(rng, cands):
@@ -236,7 +243,7 @@ def g_concat(rng, pool, sim):
     def ok(r):
         return len(r.shape) == len(a.shape) and all(x == y for i, (x, y) in enumerate(zip(r.shape, a.shape)) if i != dpos)
     cands = [r for r in _floats(pool) if ok(r)]
-    k = rng.randint(1, 3)
+    k = rng.choice([0, 1, 1, 2, 3])          # (k = 0: a list with a single tensor is legal)
     ids = [a.id] + [_pick(rng, cands).id for _ in range(k)]
     rng.shuffle(ids)
     return ids, {"dim": dim}
@@ -247,7 +254,7 @@ def g_stack(rng, pool, sim):
     if a is None:
         return None
     cands = [r for r in _floats(pool) if r.shape == a.shape]
-    k = rng.randint(1, 3)
+    k = rng.choice([0, 1, 1, 2, 3])
     ids = [a.id] + [_pick(rng, cands).id for _ in range(k)]
     rng.shuffle(ids)
     dim = rng.randrange(-(len(a.shape) + 1), len(a.shape) + 1)
@@ -646,6 +653,10 @@ def gen_op(rng, pool, allowed, simopts, tries=6):
         name = rng.choices(names, weights)[0]
         got = SPECS[name].gen(rng, pool, simopts)
         if got is not None:
+            if name in HEAVY:
+                by_id = {r.id: r for r in pool}
+                if any(by_id[i].size > HEAVY_MAX for i in got[0] if i in by_id):
+                    continue
             return name, got[0], got[1]
     return None
 
